@@ -167,7 +167,7 @@ func VerifH_c05_algebra() {
 	}
 	nops := 2
 	var kc, mc int
-	if vTier() > 0 && vBool("three") {
+	if vBool("three") {
 		kc, mc = vMkSet(cs, "c", "c")
 		nops = 3
 	}
